@@ -24,6 +24,7 @@ let () =
   let ic = open_in Sys.argv.(1) and oc = open_out Sys.argv.(2) in
   let cfg = ref { c_k = N0; c_lat = nat_of_int 1; c_dual = false; c_lvlF = N0; c_lvlE = N0 } in
   let st = ref (init !cfg) in
+  let tst = ref (tinit !cfg) in
   (try
      while true do
        let line = input_line ic in
@@ -46,6 +47,21 @@ let () =
            (match o.o_peek with Some v -> string_of_int (int_of_n v) | None -> "X")
            (match o.o_acc with Some _ -> "1" | None -> "0") (b2s o.o_del);
          st := step !cfg !st ev
+       | "T" :: _id :: rest ->
+         let get name = let r = ref 0 in
+           List.iter (fun t -> match kv t with Some (k, v) when k = name -> (try r := int_of_string v with _ -> ()) | _ -> ()) rest; !r in
+         cfg := { c_k = n_of_int (get "k"); c_lat = nat_of_int (get "L"); c_dual = false; c_lvlF = N0; c_lvlE = N0 };
+         tst := tinit !cfg;
+         output_string oc (lhs ^ "\n")
+       | [ "t"; pr; data; po; pc; cut; prb; oc_; orb ] ->
+         let ev = { te_pushReq = (pr = "1"); te_data = n_of_int (int_of_string data); te_commit = (pc = "1");
+                    te_cutoff = n_of_int (int_of_string cut); te_rollback = (prb = "1"); te_popReq = (po = "1");
+                    te_popCommit = (oc_ = "1"); te_popRollback = (orb = "1") } in
+         let o = tobserve !tst in
+         Printf.fprintf oc "%s | %s %s %s\n" lhs (b2s o.to_full) (b2s o.to_empty)
+           (match o.to_peek with Some v -> string_of_int (int_of_n v) | None -> "X");
+         tst := tstep !cfg !tst ev
+       | ("s" | "a") :: _ -> output_string oc (line ^ "\n")
        | [ "G"; w; x ] ->
          let xi = n_of_int (int_of_string x) in
          Printf.fprintf oc "%s | %d %d\n" lhs (int_of_n (gray_enc xi)) (int_of_n (gray_dec (nat_of_int (int_of_string w)) xi))
